@@ -42,7 +42,6 @@ impl Broker {
         requires
             old(self).reg_winv(),
         ensures
-            final(self).reg_winv(),
             final(self).same_rest(old(self)),
             final(self).conns@.dom() =~= old(self).conns@.dom(),
             final(self).obj_uuids@ =~= old(self).obj_uuids@,
@@ -94,6 +93,11 @@ impl Broker {
                             == old(state).services_destroyed@ + service_destroyed_notes(order, old(self).conns@.dom(), svc_cookie)
                 &&& final(state).rest_eq3(old(state), 10, 3, 4)
             },
+            // the invariant last (the frame facts above are then available), conjunct by conjunct (one query each
+            // keeps the solver stable), then as a whole
+            final(self).inv_objects(), final(self).inv_services(), final(self).inv_object_services(), final(self).inv_ownership(),
+            final(self).inv_calls(), final(self).inv_callers(), final(self).inv_conns(), final(self).inv_subs(),
+            final(self).reg_winv(),
     //@ghost before `for serial in svc.function_calls()`
         let ghost k = (obj_id.uuid, svc_uuid);
         let ghost mid = *self;
@@ -257,7 +261,7 @@ impl Broker {
         requires
             old(self).reg_winv(), old(self).no_orphans(),
         ensures
-            final(self).reg_winv(), final(self).no_orphans(),
+            final(self).no_orphans(),
             final(self).same_rest(old(self)),
             final(self).conns@.dom() =~= old(self).conns@.dom(),
             // an unknown (stale) cookie: nothing happens
@@ -294,6 +298,11 @@ impl Broker {
                 &&& final(state).destroy_object@ == old(state).destroy_object@.push(ObjectId { uuid: u, cookie: obj_cookie })
                 &&& final(state).rest_eq_teardown(old(state))
             },
+            // the invariant last (the frame facts above are then available), conjunct by conjunct (one query each
+            // keeps the solver stable), then as a whole
+            final(self).inv_objects(), final(self).inv_services(), final(self).inv_object_services(), final(self).inv_ownership(),
+            final(self).inv_calls(), final(self).inv_callers(), final(self).inv_conns(), final(self).inv_subs(),
+            final(self).reg_winv(),
     //@ghost before `for svc_cookie in obj.services()`
         let ghost u = obj_uuid;
         let ghost mid = *self;
@@ -371,7 +380,6 @@ impl Broker {
         requires
             old(self).reg_inv(),
         ensures
-            final(self).reg_inv(),
             final(self).same_rest(old(self)),
             final(self).same_services_and_calls(old(self)),
             final(self).conns@.dom() =~= old(self).conns@.dom(),
@@ -402,6 +410,11 @@ impl Broker {
                         &&& final(state).rest_eq(old(state), 7)
                     })
             },
+            // the invariant last (the frame facts above are then available), conjunct by conjunct (one query each
+            // keeps the solver stable), then as a whole
+            final(self).inv_objects(), final(self).inv_services(), final(self).inv_object_services(), final(self).inv_ownership(),
+            final(self).inv_calls(), final(self).inv_callers(), final(self).inv_conns(), final(self).inv_subs(),
+            final(self).reg_winv(), final(self).reg_inv(),
     //@ghost after `let cookie = ObjectCookie::new_v4();`
         // ASSUMPTION (random UUIDv4): the new cookie is not the cookie of a live object
         proof { assume(!self.obj_uuids@.contains_key(cookie)); }
@@ -411,7 +424,6 @@ impl Broker {
         requires
             old(self).reg_inv(),
         ensures
-            final(self).reg_inv(),
             final(self).same_rest(old(self)),
             final(self).conns@.dom() =~= old(self).conns@.dom(),
             // only the owning connection can destroy an object: unknown requester, unknown cookie or foreign object => nothing
@@ -437,6 +449,11 @@ impl Broker {
                         &&& final(state).destroy_object@ == old(state).destroy_object@.push(ObjectId { uuid: u, cookie: req.cookie })
                     })
             },
+            // the invariant last (the frame facts above are then available), conjunct by conjunct (one query each
+            // keeps the solver stable), then as a whole
+            final(self).inv_objects(), final(self).inv_services(), final(self).inv_object_services(), final(self).inv_ownership(),
+            final(self).inv_calls(), final(self).inv_callers(), final(self).inv_conns(), final(self).inv_subs(),
+            final(self).reg_winv(), final(self).reg_inv(),
     //@end
 
     // ---- create_service / create_service2 / destroy_service -------------------------------------------------------
@@ -451,7 +468,6 @@ impl Broker {
         requires
             old(self).reg_inv(),
         ensures
-            final(self).reg_inv(),
             final(self).same_rest(old(self)),
             final(self).obj_uuids@ =~= old(self).obj_uuids@,
             final(self).calls() =~= old(self).calls(),
@@ -492,6 +508,11 @@ impl Broker {
                         &&& final(state).rest_eq(old(state), 9)
                     })
             },
+            // the invariant last (the frame facts above are then available), conjunct by conjunct (one query each
+            // keeps the solver stable), then as a whole
+            final(self).inv_objects(), final(self).inv_services(), final(self).inv_object_services(), final(self).inv_ownership(),
+            final(self).inv_calls(), final(self).inv_callers(), final(self).inv_conns(), final(self).inv_subs(),
+            final(self).reg_winv(), final(self).reg_inv(),
     //@ghost after `state.push_create_service(ServiceId::new(object_id, req.uuid, svc_cookie));`
         proof {
             let u = old(self).obj_uuids@[req.object_cookie];
@@ -502,6 +523,15 @@ impl Broker {
             assert(self.svc_uuids@[sc].0 == (ObjectId { uuid: u, cookie: req.object_cookie }));
             assert(self.svcs@.dom() =~= old(self).svcs@.dom().insert((u, req.uuid)));
             assert(self.svcs@[(u, req.uuid)].cookie == sc);
+            assert(self.svcs@[(u, req.uuid)].function_calls@ == Set::<u32>::empty());
+            assert(forall|k: (ObjectUuid, ServiceUuid)| #![trigger self.svcs@[k]] old(self).svcs@.contains_key(k) ==> self.svcs@[k] == old(self).svcs@[k]);
+            assert forall|k: (ObjectUuid, ServiceUuid), s: u32| self.svcs@.contains_key(k) && #[trigger] self.svcs@[k].function_calls@.contains(s)
+                implies self.calls().contains_key(s) && self.calls()[s].callee_obj == k.0 && self.calls()[s].callee_svc == k.1 by {
+                if k != (u, req.uuid) {
+                    assert(old(self).svcs@.contains_key(k));
+                    assert(old(self).svcs@[k].function_calls@.contains(s));
+                }
+            }
             assert(forall|e: u32| self.svcs@[(u, req.uuid)].subs(e) == Set::<ConnectionId>::empty());
             assert(self.objs@[u].svcs@ == old(self).objs@[u].svcs@.insert(sc));
             assert(forall|u2: ObjectUuid| #![trigger self.objs@[u2]] old(self).objs@.contains_key(u2) && u2 != u ==> self.objs@[u2] == old(self).objs@[u2]);
@@ -516,7 +546,6 @@ impl Broker {
         requires
             old(self).reg_inv(),
         ensures
-            final(self).reg_inv(),
             final(self).same_rest(old(self)),
             final(self).obj_uuids@ =~= old(self).obj_uuids@,
             final(self).calls() =~= old(self).calls(),
@@ -560,6 +589,14 @@ impl Broker {
                         &&& final(state).rest_eq(old(state), 9)
                     })
             },
+            // the invariant last (the frame facts above are then available), conjunct by conjunct (one query each
+            // keeps the solver stable), then as a whole
+            final(self).inv_objects(), final(self).inv_services(), final(self).inv_object_services(), final(self).inv_ownership(),
+            final(self).inv_calls(), final(self).inv_callers(), final(self).inv_conns(), final(self).inv_subs(),
+            final(self).reg_winv(), final(self).reg_inv(),
+    //@ghost before#1/3 `return send!(`
+        // the occupied entry is released unused: the table is what it was
+        proof { assert(self.svcs@ =~= old(self).svcs@); }
     //@ghost after `state.push_create_service(ServiceId::new(object_id, req.uuid, svc_cookie));`
         proof {
             let u = old(self).obj_uuids@[req.object_cookie];
@@ -570,6 +607,15 @@ impl Broker {
             assert(self.svc_uuids@[sc].0 == (ObjectId { uuid: u, cookie: req.object_cookie }));
             assert(self.svcs@.dom() =~= old(self).svcs@.dom().insert((u, req.uuid)));
             assert(self.svcs@[(u, req.uuid)].cookie == sc);
+            assert(self.svcs@[(u, req.uuid)].function_calls@ == Set::<u32>::empty());
+            assert(forall|k: (ObjectUuid, ServiceUuid)| #![trigger self.svcs@[k]] old(self).svcs@.contains_key(k) ==> self.svcs@[k] == old(self).svcs@[k]);
+            assert forall|k: (ObjectUuid, ServiceUuid), s: u32| self.svcs@.contains_key(k) && #[trigger] self.svcs@[k].function_calls@.contains(s)
+                implies self.calls().contains_key(s) && self.calls()[s].callee_obj == k.0 && self.calls()[s].callee_svc == k.1 by {
+                if k != (u, req.uuid) {
+                    assert(old(self).svcs@.contains_key(k));
+                    assert(old(self).svcs@[k].function_calls@.contains(s));
+                }
+            }
             assert(forall|e: u32| self.svcs@[(u, req.uuid)].subs(e) == Set::<ConnectionId>::empty());
             assert(self.objs@[u].svcs@ == old(self).objs@[u].svcs@.insert(sc));
             assert(forall|u2: ObjectUuid| #![trigger self.objs@[u2]] old(self).objs@.contains_key(u2) && u2 != u ==> self.objs@[u2] == old(self).objs@[u2]);
@@ -584,7 +630,6 @@ impl Broker {
         requires
             old(self).reg_inv(),
         ensures
-            final(self).reg_inv(),
             final(self).same_rest(old(self)),
             final(self).conns@.dom() =~= old(self).conns@.dom(),
             final(self).obj_uuids@ =~= old(self).obj_uuids@,
@@ -610,6 +655,11 @@ impl Broker {
                                 ServiceId { object_id: old(self).svc_uuids@[req.cookie].0, uuid: k.1, cookie: req.cookie })
                     })
             },
+            // the invariant last (the frame facts above are then available), conjunct by conjunct (one query each
+            // keeps the solver stable), then as a whole
+            final(self).inv_objects(), final(self).inv_services(), final(self).inv_object_services(), final(self).inv_ownership(),
+            final(self).inv_calls(), final(self).inv_callers(), final(self).inv_conns(), final(self).inv_subs(),
+            final(self).reg_winv(), final(self).reg_inv(),
     //@end
 }
 
